@@ -4,16 +4,20 @@ package main
 
 import (
 	"fmt"
+	"os"
 	"strings"
 )
 
-func batch(tag string, root Cfg, subs []Cfg) {
+func batch(tag string, root Cfg, subs []Cfg) { batchP(tag, root, subs, nil) }
+
+// [profs]: the profiles the subordinates reference by name (sub i uses profs[j] when subs[i].Profile == profs[j].Name)
+func batchP(tag string, root Cfg, subs []Cfg, profs []*Profile) {
 	ents := []entity{{name: "root", cfg: root}}
 	defer func() {
 		// BulkUpdate stops at the first failing entity; run what came after it in a fresh directory
 		if k := batchFailed; k > 0 && k < len(subs) {
 			batchFailed = -1
-			batch(tag+"+", root, subs[k:])
+			batchP(tag+"+", root, subs[k:], profs)
 		}
 	}()
 	batchFailed = -1
@@ -26,9 +30,24 @@ func batch(tag string, root Cfg, subs []Cfg) {
 				s.SigAlg = "ECDSAwithSHA256"
 			}
 		}
-		ents = append(ents, entity{name: fmt.Sprintf("s%03d", i), cfg: s, json: i%5 == 4})
+		e := entity{name: fmt.Sprintf("s%03d", i), cfg: s, json: i%5 == 4}
+		for _, p := range profs {
+			if p.Name == s.Profile {
+				e.profile = p
+			}
+		}
+		ents = append(ents, e)
 	}
-	batchFailed = runHierarchy(tag, ents, nil) // index in ents; ents[k] = subs[k-1], so the rest is subs[k:]
+	var used []*Profile
+	for _, p := range profs {
+		for _, e := range ents {
+			if e.profile == p {
+				used = append(used, p)
+				break
+			}
+		}
+	}
+	batchFailed = runHierarchy(tag, ents, used) // index in ents; ents[k] = subs[k-1], so the rest is subs[k:]
 }
 
 var batchFailed = -1
@@ -149,6 +168,28 @@ func exhaustiveCert(g *gen) {
 			s.Validity = Validity{From: "2024-02-29", Duration: du}
 			batch(fmt.Sprintf("c04-duration-range-%d", i), plainRoot(), []Cfg{s})
 		}
+		// entities that are built seconds after the configurations were read (slow key generation in front of them): an end date
+		// without a start date stays that date, a duration counts from the moment of reading/building consistently
+		if tz := os.Getenv("TZ"); tz == "" || tz == "UTC" {
+			slowRoot := plainRoot()
+			slowRoot.KeyAlg, slowRoot.SigAlg = "RSA-4096", "RSAwithSHA256"
+			var late []Cfg
+			for i := 0; i < 2; i++ {
+				s := plainSub(900 + i)
+				s.KeyAlg = "RSA-4096"
+				late = append(late, s)
+			}
+			for i, v := range []Validity{{Until: "2040-06-15"}, {Duration: "3y"}, {}, {Until: "2031-03-09"}} {
+				s := plainSub(910 + i)
+				s.Validity = v
+				late = append(late, s)
+			}
+			inh := plainSub(920)
+			inh.Validity = Validity{}
+			inh.Profile = "plate"
+			late = append(late, inh)
+			batchP("c04-late", slowRoot, late, []*Profile{{Name: "plate", Validity: Validity{Until: "2044-04-04"}}})
+		}
 	case "c05":
 		keys := allKeys
 		if !thorough() {
@@ -230,6 +271,68 @@ func exhaustiveCert(g *gen) {
 			}
 		}
 		batch("c06-exh", plainRoot(), subs)
+	case "c08":
+		// the documented merge rule through the configuration files: every shape of one or two profile entries over keyUsage and
+		// extendedKeyUsage (with content / content-less, optional, override) against every short certificate list over the same two
+		// kinds and a custom extension; ten subordinates per directory, each with its own profile file
+		kuP := Ext{Kind: "ku", HasContent: true, List: []string{"digitalSignature"}, Crit: 1}
+		ekuP := Ext{Kind: "eku", HasContent: true, List: []string{"serverAuth"}, Crit: -1}
+		kuC := Ext{Kind: "ku", HasContent: true, List: []string{"keyCertSign", "crlSign"}, Crit: 0}
+		ekuC := Ext{Kind: "eku", HasContent: true, List: []string{"clientAuth"}, Crit: 1}
+		cust := Ext{Kind: "custom", Oid: "1.2.3.9", Raw: "!null", Crit: -1}
+		var slots [][]PExt
+		for _, base := range []Ext{kuP, ekuP} {
+			sl := []PExt{}
+			for _, content := range []bool{true, false} {
+				for _, opt := range []bool{false, true} {
+					for _, ovr := range []bool{false, true} {
+						e := base
+						if !content {
+							e = Ext{Kind: base.Kind, Crit: base.Crit}
+						}
+						sl = append(sl, PExt{Ext: e, Optional: opt, Override: ovr})
+					}
+				}
+			}
+			slots = append(slots, sl)
+		}
+		var plists [][]PExt
+		for _, a := range slots[0] {
+			plists = append(plists, []PExt{a})
+			for _, b := range slots[1] {
+				if thorough() || (a.Optional == b.Optional) || !a.Ext.HasContent || !b.Ext.HasContent {
+					plists = append(plists, []PExt{a, b}, []PExt{b, a})
+				}
+			}
+		}
+		for _, b := range slots[1] {
+			plists = append(plists, []PExt{b})
+		}
+		clists := [][]Ext{{}, {kuC}, {ekuC}, {kuC, ekuC}, {ekuC, kuC}, {cust, kuC}, {cust, ekuC, kuC}}
+		var subs []Cfg
+		var profs []*Profile
+		flush := func() {
+			if len(subs) > 0 {
+				batchP("c08-exh", plainRoot(), subs, profs)
+				subs, profs = nil, nil
+			}
+		}
+		n := 0
+		for _, pl := range plists {
+			for _, cl := range clists {
+				n++
+				p := &Profile{Name: fmt.Sprintf("p%d", n), Exts: append([]PExt{}, pl...)}
+				c := plainSub(n)
+				c.Profile = p.Name
+				c.Exts = append([]Ext{}, cl...)
+				subs = append(subs, c)
+				profs = append(profs, p)
+				if len(subs) == 10 {
+					flush()
+				}
+			}
+		}
+		flush()
 	case "c07":
 		var subs []Cfg
 		for f := 0; f < 128; f++ {
